@@ -110,7 +110,9 @@ def run(ctx):
     run_corr(ctx, 'corr_types', 'expressions.py / operators.py elaboration and folding vs Types/Fold model')
     rng = random.Random(ctx.seed)
     q = ctx.tier == 'quick'
-    trees = []
+    # canonical witnesses of the known findings run first, so that each is reported on every run
+    trees = [('bin', '/', ('lit', 40000), ('lit', 3)), ('bin', '>', ('lit', 40000), ('lit', 0)), ('bin', '/', ('lit', 4), ('isint', ('isbyte', ('lit', 258)))),
+             ('bin', 'and', ('bin', '>', ('lit', 1), ('lit', 2)), ('bin', '>=', ('bin', '/', ('lit', 256), ('lit', 0)), ('lit', 1)))]
     # exhaustive pairs over the grid for every binary operator (depth 1), then random depth <= 3 (quick) / 5
     g = GRID if not q else GRID[:19]
     for op in ARITH + CMP:
@@ -124,8 +126,8 @@ def run(ctx):
         trees.append(gen_tree(rng, rng.choice([2, 3] if q else [2, 3, 4, 5]), rng.choice(['int', 'int', 'bool', 'byte'])))
     units, meta = [], []
     ws = [2, 3, 4]
-    for t in trees:
-        mode = 'const' if rng.random() < 0.8 else 'cvar'
+    for ti, t in enumerate(trees):
+        mode = 'const' if (ti < 4 or rng.random() < 0.8) else 'cvar'
         src_c, lits = program(t, mode)
         src_v, _ = program(t, 'var')
         args = tuple(str(v) for v in lits)
